@@ -80,6 +80,11 @@ fn decode(id: &str, rec: &str, inp: Vec<u8>) {
 fn archive_op(op: &str, arg: &[u8], path: &Path) -> (String, usize, String) {
     let p = Arc::new(path.to_path_buf());
     let rf = |e: routinator::error::RunFailed| (if e.is_fatal() { "fatal".to_string() } else { "retry".to_string() }, 0, String::new());
+    // "publish:<n>": publish an object with n bytes of content
+    let (op, content): (&str, Vec<u8>) = match op.strip_prefix("publish:") {
+        Some(n) => ("publish", vec![b'c'; n.parse().unwrap_or(1)]),
+        None => (op, b"new object content".to_vec()),
+    };
     match op {
         "open" => match RrdpArchive::open(p) { Ok(_) => ("ok".into(), 0, String::new()), Err(e) => rf(e) },
         "verify" => match RrdpArchive::verify(path) {
@@ -123,7 +128,7 @@ fn archive_op(op: &str, arg: &[u8], path: &Path) -> (String, usize, String) {
             Ok(None) => ("error".into(), 0, "not found".into()),
             Ok(Some(mut a)) => match rpki::uri::Rsync::from_slice(arg) {
                 Err(_) => ("ok".into(), 0, "bad uri".into()),
-                Ok(u) => match a.publish_object(&u, b"new object content") {
+                Ok(u) => match a.publish_object(&u, &content) {
                     Ok(()) => ("ok".into(), 1, String::new()),
                     Err(e) => ("error".into(), 0, format!("{e:?}").chars().take(80).collect()),
                 },
